@@ -2,6 +2,12 @@
 
 package valid
 
+import (
+	"reflect"
+	"strings"
+	"time"
+)
+
 // C13: totality. Every entry point returns normally (nil or an error) for
 // any value shape and any rule text. The executor models the panic
 // conditions of reflect, indexing, slicing, nil maps and nil dereferences,
@@ -549,6 +555,134 @@ func H_C13_recursive_types() {
 		vC13Call("Struct(list) with a rule set for the type", func() {
 			_ = Struct(&vC13List{V: s, Next: &vC13List{V: "x"}}, RM{"V": "required,le=1", "Next": "required"})
 		})
+	}
+	vReach("end")
+}
+
+// elements whose types have String/Error methods with value receivers, held as nil pointers (fmt prints
+// <nil> for them; calling the method directly would dereference nil), through the rules that render elements
+type vC13Str struct{ n int }
+
+func (s vC13Str) String() string { return "S" }
+
+type vC13Err struct{ n int }
+
+func (e vC13Err) Error() string { return "E" }
+
+type vC13Named struct {
+	L []*vC13Str          `valid:"unique,ints"`
+	E [2]*vC13Err         `valid:"unique"`
+	T []*time.Time        `valid:"unique,required"`
+	M map[string]*vC13Str `valid:"required"`
+}
+
+func H_C13_nil_stringers() {
+	s := &vC13Str{n: vndInt("n")}
+	switch vndChoice("shape", 6) {
+	case 0:
+		vC13Call("Var([]*Stringer{nil}, unique)", func() { _ = Var([]*vC13Str{nil, s}, "unique") })
+	case 1:
+		vC13Call("Var([2]*error-like{}, unique,ints)", func() { _ = Var([2]*vC13Err{}, "unique", "ints") })
+	case 2:
+		vC13Call("Var([]*time.Time{nil}, unique)", func() { _ = Var([]*time.Time{nil, nil}, "unique", "in=(a/b)") })
+	case 3:
+		vC13Call("Struct with nil Stringer elements", func() {
+			_ = Struct(&vC13Named{L: []*vC13Str{nil}, T: []*time.Time{nil}, M: map[string]*vC13Str{"k": nil}})
+		})
+	case 4:
+		vC13Call("Map with nil Stringer values", func() {
+			_ = Map(map[string]interface{}{"a": []*vC13Str{nil, s}, "b": (*vC13Str)(nil)}, NewRule().Set("a", "unique,ints").Set("b", "in=(S)"))
+		})
+	case 5:
+		vC13Call("Struct(map with Stringer keys)", func() { _ = Struct(map[vC13Str]*vC13Inner{{1}: nil, {2}: {N: "n", M: 2}}) })
+	}
+	vReach("end")
+}
+
+// several validators alive at once after earlier calls have returned theirs to the pool: explicit
+// validators side by side, and a rule function that validates something itself
+func H_C13_live_validators() {
+	vPoolMode("lifo") // what one P does: the object put last is the one handed out next
+	n := vndString("n", 1)
+	o := &vC13Inner{N: n, M: 2}
+	vC13Call("warm-up calls", func() {
+		_ = Struct(o)
+		_ = Struct(nil)
+		_ = Var(n, "required")
+		_ = Var(nil, "required")
+		_ = Map(map[string]string{"k": n}, NewRule().Set("k", "required"))
+		_ = Url("h?k="+"1", NewRule().Set("k", "required"))
+	})
+	switch vndChoice("shape", 4) {
+	case 0:
+		vC13Call("two struct validators side by side", func() {
+			a, b := NewVStruct(), NewVStruct()
+			a.SetRule(RM{"N": "required"})
+			_ = b.Valid(o)
+			_ = a.Valid(&vC13Inner{M: 9})
+		})
+	case 1:
+		vC13Call("two variable validators side by side", func() {
+			a, b := NewVVar(), NewVVar()
+			a.SetRules("required")
+			b.SetRules("ge=1")
+			_ = b.Valid(n)
+			_ = a.Valid("")
+		})
+	case 2:
+		vC13Call("a rule function that validates something itself", func() {
+			inner := func(errBuf *strings.Builder, validName, objName, fieldName string, tv reflect.Value) {
+				if err := Struct(&vC13Inner{N: tv.String(), M: 1}); err != nil {
+					errBuf.WriteString(GetJoinValidErrStr(objName, fieldName, tv.String(), err.Error()))
+				}
+				_ = Var(tv.String(), "required", "le=3")
+			}
+			_ = StructForFns(o, RM{"N": "nested"}, Name2FnMap{"nested": inner})
+			_ = NewVVar().SetRules("nested").SetValidFn("nested", inner).Valid(n)
+		})
+	case 3:
+		vC13Call("map and url validators side by side", func() {
+			a, b := NewVMap(), NewVUrl()
+			a.SetRule(NewRule().Set("k", "required"))
+			b.SetRule(NewRule().Set("k", "required"))
+			_ = b.Valid("h?k=" + "1")
+			_ = a.Valid(map[string]string{"k": n})
+		})
+	}
+	vReach("end")
+}
+
+// embedded structs and embedded pointers (nil and non-nil), with rules on the promoted fields' types
+type vC13Base struct {
+	ID string `valid:"required"`
+}
+
+type vC13Emb struct {
+	*vC13Base
+	vC13Inner
+	Name string `valid:"required"`
+}
+
+type vC13EmbMarked struct {
+	*vC13Base `valid:"exist"`
+	vC13Inner `valid:"required"`
+}
+
+func H_C13_embedded() {
+	n := vndString("n", 1)
+	switch vndChoice("shape", 5) {
+	case 0:
+		vC13Call("Struct(embedded nil pointer)", func() { _ = Struct(&vC13Emb{Name: n}) })
+	case 1:
+		vC13Call("Struct(embedded pointer set)", func() { _ = Struct(&vC13Emb{vC13Base: &vC13Base{ID: n}, Name: "x"}) })
+	case 2:
+		vC13Call("Struct(embedded nil pointer, marked)", func() { _ = Struct(&vC13EmbMarked{vC13Inner: vC13Inner{N: n, M: 1}}) })
+	case 3:
+		vC13Call("Struct([]T with embedded nil pointers, rule set naming a promoted field)", func() {
+			_ = Struct([]vC13Emb{{Name: n}, {}}, RM{"ID": "required", "N": "le=1"})
+		})
+	case 4:
+		vC13Call("Struct(map of embedded)", func() { _ = Struct(map[string]*vC13EmbMarked{"k": {}, "j": nil}) })
 	}
 	vReach("end")
 }
